@@ -2,6 +2,7 @@
 # tools/mutcheck.sh <patch.diff> <PID> [<PID> ...]
 # Applies a patch to a scratch copy of /repo (outside /repo and /verif), runs the named checks against it
 # with evidence redirected to the scratch dir, prints the exit code of each, removes the scratch copy.
+V="$(cd "$(dirname "$0")/.." && pwd)"
 P="$(readlink -f "$1")"; shift
 S=$(mktemp -d /tmp/ujvc-mut.XXXXXX)
 trap 'rm -rf "$S"' EXIT
@@ -9,7 +10,7 @@ mkdir -p "$S/repo" "$S/evid"
 cp -r /repo/src "$S/repo/src"
 ( cd "$S/repo" && patch -s -p1 < "$P" ) || { echo "PATCH FAILED"; exit 9; }
 for pid in "$@"; do
-  UJVC_REPO_SRC="$S/repo/src" UJVC_EVID="$S/evid" /verif/check "$pid" > "$S/out.$pid" 2>&1
+  UJVC_REPO_SRC="$S/repo/src" UJVC_EVID="$S/evid" "$V"/check "$pid" > "$S/out.$pid" 2>&1
   rc=$?
   echo "== $pid rc=$rc  $(grep -c '^VIOLATION' "$S/out.$pid") violation line(s)"
   grep -E '^(VIOLATION|UNDECIDED|CRASH|KNOWN)' "$S/out.$pid" | sed "s#$S#<scratch>#g" | cut -c1-300 | head -${MUT_LINES:-6}
